@@ -165,8 +165,14 @@ def ext (st : St) (pre : Driver.GCMon.St) (op res : List String) : St × String 
   let paused := st.g.gcs != pre.gcs
   -- 1. a pause happened while this op ran: the collection saw the heap as it was before the op
   let st := if paused && !st.satb then
+      -- several pauses inside one op = an allocation that kept failing: the first collection is an ordinary one
+      -- (a nursery collection on a generational plan unless the user asked for an exhaustive one); the second is a
+      -- full-heap one and — `GlobalState::set_collection_kind`: attempts > 1 after an exhaustive collection — an
+      -- emergency collection unless the first was a nursery collection; all later ones are emergency collections
       let nursery := st.generational && (match op with | ["gc", _, "1"] => false | _ => true)
-      onPause st pre.heap nursery
+      (List.range (st.g.gcs - pre.gcs)).foldl (fun st i =>
+        if i == 0 then onPause st pre.heap nursery
+        else onPause { st with emergency := i ≥ 2 || !nursery } pre.heap false) st
     else if paused && op.head? != some "snap" then
       -- C12: remember what was reachable when the pause happened; a pause outside a marking cycle owes nothing
       { st with pauseReach := reach pre.heap, pauseObjs := pre.heap.objs.size,
